@@ -50,8 +50,9 @@ Theorem failed_op_no_token e o t : snd (stepS e o) = OutTok t ->
                   t = Tok (Some (sg_alg s)) (Some p) (Some (SigBy (sg_key s) (sg_alg s) (Some (sg_alg s)) p)) /\
                   (v = true -> validate S c = Ok tt).
 Proof.
-  destruct o as [c|v s|t'|k]; cbn [step].
+  destruct o as [c|c|v s|t'|k]; cbn [step].
   - destruct (validate S c); cbn; discriminate.
+  - cbn. discriminate.
   - destruct (e_claims e) as [c|]; [|cbn; discriminate].
     destruct (v && negb (is_ok (validate S c))) eqn:V; [cbn; discriminate|].
     destruct (encode_cbor W c) as [p|] eqn:E; [|cbn; discriminate].
@@ -87,7 +88,7 @@ Fixpoint clean_since (ops : list eop) : bool :=
   match ops with
   | [] => true
   | o :: r => match o with
-              | ESetClaims _ => false && clean_since r
+              | ESetClaims _ | EMutate _ => false && clean_since r
               | _ => clean_since r
               end
   end.
@@ -107,7 +108,7 @@ Definition bound (e : ev) : Prop :=
 (** the claims-sets handed to SetClaims can be carried on the wire (valid
     UTF-8 texts, the profile's own canonical name, sizes below 2^64) *)
 Definition op_wire_ok (o : eop) : Prop :=
-  match o with ESetClaims c => claims_wire_ok c | _ => True end.
+  match o with ESetClaims c | EMutate c => claims_wire_ok c | _ => True end.
 
 Definition claims_state_ok (e : ev) : Prop :=
   match e_claims e with Some c => claims_wire_ok c | None => True end.
@@ -119,12 +120,12 @@ Proof. trivial. Qed.
 Lemma step_bound e o :
   claims_state_ok e ->
   match o with
-  | ESetClaims _ => True
+  | ESetClaims _ | EMutate _ => True
   | EVerify _ => bound e -> bound (fst (stepS e o))
   | _ => bound (fst (stepS e o))
   end.
 Proof.
-  intro CS. destruct o as [c|v s|t|k]; [exact I| | |].
+  intro CS. destruct o as [c|c|v s|t|k]; [exact I|exact I| | |].
   - cbn [step]. unfold claims_state_ok in CS. destruct (e_claims e) as [c|] eqn:C; [|cbn; exact I].
     destruct (v && negb (is_ok (validate S c))); [cbn; exact I|].
     destruct (encode_cbor W c) as [p|] eqn:E; [|cbn; exact I].
@@ -142,6 +143,7 @@ Qed.
 Definition dirty_step (d : bool) (e : ev) (o : eop) : bool :=
   match o with
   | ESetClaims c => if is_ok (validate S c) then true else d
+  | EMutate _ => true
   | ESign _ _ | EDecode _ => false
   | EVerify _ => d
   end.
@@ -168,8 +170,9 @@ Proof.
   - rewrite run_cons. destruct Hok as [CS Hok]. cbn [dirty_run] in Hd.
     apply (IH (fst (stepS e o)) (dirty_step d e o)); auto.
     intro Hd'. pose proof (step_bound e o CS) as SB.
-    destruct o as [c|v s|t|k]; cbn [dirty_step] in Hd'.
+    destruct o as [c|c|v s|t|k]; cbn [dirty_step] in Hd'.
     + cbn [step]. destruct (validate S c) as [[]| |]; cbn in Hd' |- *; try discriminate; apply Hb, Hd'.
+    + discriminate.
     + exact SB.
     + exact SB.
     + apply SB, Hb, Hd'.
